@@ -168,4 +168,11 @@ theorem c11_myers_vindex_in_range (x : Int) (Z : Nat) (hZ : 0 < Z) :
     0 ≤ Myers.pyMod x Z ∧ (Myers.pyMod x Z).toNat < Z :=
   ⟨(Myers.pyMod_range x Z (by omega)).1, Myers.pyMod_index x Z hZ⟩
 
+/-- the snake loop of the Myers search, started at non-negative coordinates with the fuel `kStep` gives it, never
+indexes the element lists out of range and never runs out of fuel (both directions) -/
+theorem c11_myers_snake_total {α : Type} [DecidableEq α] (e f : List α) (o m : Int)
+    (hom : (o = 1 ∧ m = 1) ∨ (o = 0 ∧ m = -1)) (a b : Int) (ha : 0 ≤ a) (hb : 0 ≤ b) :
+    ∃ r, Myers.snake e f o m (e.length + 1) a b = some r :=
+  Myers.snake_total e f o m hom (e.length + 1) a b ha hb (by push_cast; omega) (by omega)
+
 end Patch
